@@ -520,13 +520,20 @@ def gen_ts(rng, ids, multi_ok, rowcomplete, grid=12, intcols_ok=False):
                 for c in cols:
                     c[i] = None
     spec = {'ts': ts, 'cols': cols}
+    if rng.random() < 0.12:
+        # infinite observations are observations: they keep their place and their value under every join and fill ('inf' / '-inf' are read by float())
+        for c in cols:
+            for i in range(len(c)):
+                if c[i] is not None and rng.random() < 0.3:
+                    c[i] = rng.choice(['inf', '-inf'])
+        spec['inf'] = True
     if freq:
         spec['freq'] = freq
     if rng.random() < 0.5:
         spec['share_index'] = True
     if k > 1:
         spec['names'] = rng.sample(['p', 'q', 'r', 's'], k)
-        if rng.random() < 0.25 and ts and intcols_ok:
+        if rng.random() < 0.25 and ts and intcols_ok and not spec.get('inf'):
             j = rng.randrange(k)
             cols[j] = [2 ** 53 + 1 + 2 * int(ids()) for _ in ts]
             spec['intcols'] = [j]
